@@ -36,6 +36,10 @@ def keyfn(line, code):
 
 
 def run(ctx):
+    from props import c10 as _c10
+    ctx.stream("rel", gen.param_independence_lines(ctx.rng.fork("params"), 5000 if ctx.quick else 120000),
+               "same verdict for every parameter combination: non-default parameters vs. defaults on permuted presentations (judge_rel, kind 1)",
+               describe=lambda c: _c10.CODES.get(c, str(c)), nontrivial=lambda l, r: True)
     import clilib
     clilib.stream(ctx, "cliverdict", gen.cliverdict_lines(ctx.rng.fork("cliverdict"), 1, 5, 400 if ctx.quick else 8000, (0, 1), 4, 4, 16, False),
                   "cmr-regular: verdict line vs. the definition-level oracle on the matrix parsed from the input bytes",
